@@ -14,8 +14,11 @@ when every listed check exits 0. Results go to selftest/RESULTS.json.
 import json, os, subprocess, sys, time
 
 HERE = os.path.dirname(os.path.dirname(os.path.abspath(__file__)))
-REPO = "/repo"
-ENV = dict(os.environ, GOFLAGS="-mod=mod", GOPROXY="off", GOSUMDB="off", GOTOOLCHAIN="local")
+SRC = "/repo"
+# The corpus is applied to a scratch copy (outside /repo and /verif, removed
+# at the end) so that /repo's working tree is never touched.
+REPO = "/tmp/verif_selftest_repo"
+ENV = dict(os.environ, GOFLAGS="-mod=mod", GOPROXY="off", GOSUMDB="off", GOTOOLCHAIN="local", VERIF_REPO=REPO)
 
 
 def sh(cmd, cwd=None):
@@ -46,15 +49,13 @@ def cases(args):
 
 
 def main():
-    rc, st = sh("git status --porcelain", REPO)
-    if st.strip():
-        print("refusing: /repo working tree is not clean\n" + st)
-        return 2
+    sh("rm -rf %s && mkdir -p %s && rsync -a --exclude .git %s/ %s/" % (REPO, REPO, SRC, REPO))
     results = []
     bad = 0
     for c in cases(sys.argv[1:]):
         meta = json.load(open(os.path.join(c, "meta.json")))
         name = os.path.relpath(c, HERE)
+        sh("rsync -a --delete --exclude .git %s/ %s/" % (SRC, REPO))
         rc, out = sh("git apply " + os.path.join(c, "patch.diff"), REPO)
         if rc != 0:
             print("%-40s PATCH DOES NOT APPLY" % name)
@@ -87,7 +88,8 @@ def main():
             if not ok:
                 bad += 1
         finally:
-            sh("git checkout -- . && git clean -fdq", REPO)
+            pass
+    sh("rm -rf " + REPO)
     json.dump(results, open(os.path.join(HERE, "selftest", "RESULTS.json"), "w"), indent=1)
     print("%d cases, %d bad" % (len(results), bad))
     return 1 if bad else 0
